@@ -39,21 +39,20 @@ SPEC = dict(
         "one element per read: the scripted server waits for the client to become quiescent after every element",
     ],
     assumptions=[
-        "scope (the only hypothesis of the theorem, application side, appWaits): the application itself does not send requests before the session exists "
-        "and calls connectToServer only while disconnected (calling it on a live TLS link makes QSslSocket::connectToHost reset the socket "
-        "to plaintext mode - observed, outside the property, which quantifies over servers)",
+        "scope (the only hypothesis of the theorem, application side, appWaits): the application itself does not send requests over an unencrypted link "
+        "(nothing is assumed about when it calls connectToServer: since 6235115 a connect on a live socket aborts the old connection first)",
+        "not modelled: every write on a TLS session the peer has half-closed raises the socket error again; reconnect back-off delays; <conflict/> "
+        "inhibiting automatic reconnection; the registration manager beyond register-on-connect (password change, account deletion)",
         "QSslSocket::supportsSsl() is true in this environment: the localTls=false branch of the model is proved but not exercised on the implementation",
         "mechanism selection is abstracted to {PLAIN, SCRAM-SHA-1, HT-SHA-256-NONE, unsupported} (full ranking: C05); SM counters/acks: C09; framing: C03",
     ],
-    level_text="PARTIAL (open finding): theorem over all server scripts of any length (alphabet incl. foreign-namespace elements, <r/>, <a/>, "
-               "white space, half elements, error+close in one read, time `tick`, TLS close_notify without TCP close, reconnect timer): with TLS required "
-               "nothing but stream open/starttls/stream close is ever written to an unencrypted wire - PROVIDED the reconnect timer never fires on a "
-               "connected socket (part of appWaits; the other parts are application side). C04_defect_cleartext_after_reconnect_on_live_socket proves "
-               "the proviso necessary: close_notify + automatic reconnection make connectToHost() run on the live socket, QSslSocket falls back to "
-               "plaintext, session and isConnected() stay, keep-alive pings and application stanzas go out in clear (reproduced, independent reproducer "
-               "confirmed; fix fixes/C04-connect-on-live-socket.diff). Unconditional: pre_tls_element_is_rejected, tls_unavailable_disconnects, "
-               "starttls_failure_disconnects, failed_handshake_disconnects, versionless_header_gives_up, iq_request_before_tls_is_rejected, "
-               "keepalive_only_in_session. Former leaks (e0bbad9, fa0779c, e3d3c0f) are replayed first.",
+    level_text="Theorem over ALL server scripts of any length (no hypothesis about the server; alphabet incl. foreign-namespace elements, <r/>, <a/>, white "
+               "space, half elements, error+close in one read, time `tick`, TLS close_notify without TCP close, the reconnect timer, connectToServer in ANY "
+               "state, a registration manager consuming the stream features): with TLS required nothing but stream open/starttls/stream close is ever written "
+               "to an unencrypted wire; only hypothesis: the application itself sends no request over an unencrypted link. Also: "
+               "connect_starts_from_an_unconnected_socket (6235115), registration_never_in_clear, no_keepalive_before_encryption, keepalive_only_in_session, "
+               "pre_tls_element_is_rejected, tls_unavailable_disconnects, starttls_failure_disconnects, failed_handshake_disconnects, "
+               "versionless_header_gives_up, iq_request_before_tls_is_rejected. Former leaks (e0bbad9, fa0779c, e3d3c0f, 6235115) are replayed first.",
     level_note="Also proved: an application that sends only while isConnected() (and connects only while disconnected) satisfies the scope "
                "hypothesis automatically - with TLS required isConnected() implies an encrypted link; and a request sent on a connected "
                "unencrypted link does go out in clear (the scope hypothesis cannot be dropped). Proved about the hand-written model; the model-to-code tie is differential (exhaustive to depth 3/4 over a reduced "
